@@ -239,6 +239,30 @@ pub fn c12(tier: &str, seed: u64) {
       case(true);
       stat("c12.many_requests_on_one_thread");
     }
+    // finalisation is a pure function of (input, tag, unblinded point): a long input finalised first,
+    // then a short one, on ONE thread gives what a fresh thread gives
+    if si % 8 == 2 {
+      let md = tags[0];
+      let long = { let n = g.range(300, 5000) as usize; g.blob(n) };
+      let short = { let n = g.range(0, 40) as usize; g.blob(n) };
+      let srv = server.clone();
+      let (l2, s2) = (long.clone(), short.clone());
+      let with_history = std::thread::spawn(move || {
+        let a = run_once(&srv, &l2, md, false).map(|r| r.4);
+        let b = run_once(&srv, &s2, md, false).map(|r| r.4);
+        (a, b)
+      })
+      .join()
+      .expect("thread");
+      let srv = server.clone();
+      let s3 = short.clone();
+      let fresh = std::thread::spawn(move || run_once(&srv, &s3, md, false).map(|r| r.4)).join().expect("thread");
+      if with_history.1 != fresh {
+        fail("finalize_depends_on_call_history", &[("long_input_len", long.len().to_string()), ("short_input", hex(&short)), ("md", md.to_string()), ("after_long_input", format!("{:?}", with_history.1.as_ref().map(|v| hex(v)))), ("fresh_thread", format!("{:?}", fresh.as_ref().map(|v| hex(v))))]);
+      }
+      case(true);
+      stat("c12.finalize_after_longer_input");
+    }
     // freshness across THREADS of one process (clients blind wherever the embedding application runs
     // them): concurrent threads, and threads started one after the other, must not share blindings
     if si % 8 == 0 {
@@ -506,6 +530,47 @@ pub fn c13(tier: &str, seed: u64) {
       if l.pkb == pkb {
         xserver = Some(Honest { pkb: l.pkb.clone(), inp: l.inp.clone(), out: l.out.clone(), c: l.c, s: l.s, md: l.md });
       }
+    }
+  }
+  // proofs made on several OS threads (unnamed spawn workers, and workers that share one name like a
+  // runtime's pool): the k-th proof of every thread has its own nonce
+  {
+    let server = Server::new(vec![3, 4]).expect("Server::new");
+    let pkb = server.get_public_key().serialize_to_bincode().unwrap();
+    let pos = pk_entry_pos(&pkb, 3).unwrap();
+    let pkv = dec(&pkb[..32]) + dec(&pkb[pos + 1..pos + 33]);
+    for named in [false, true] {
+      let hs: Vec<_> = (0..4)
+        .map(|_| {
+          let srv = server.clone();
+          let b = std::thread::Builder::new();
+          let b = if named { b.name("worker".into()) } else { b };
+          b.spawn(move || {
+            (0..3)
+              .map(|i| {
+                let (bp, _) = Client::blind(&[i as u8, 0x55]);
+                let ev = srv.eval(&bp, 3, true).expect("eval");
+                proof_cs(ev.proof.as_ref().unwrap())
+              })
+              .collect::<Vec<_>>()
+          })
+          .expect("spawn")
+        })
+        .collect();
+      let mut seen: HashMap<Vec<u8>, (usize, usize)> = HashMap::new();
+      for (ti, h) in hs.into_iter().enumerate() {
+        for (k, (c, s_)) in h.join().expect("proof thread").into_iter().enumerate() {
+          let t2 = (s_ * BASE + c * pkv).compress().as_bytes().to_vec();
+          if let Some((tj, kj)) = seen.insert(t2.clone(), (ti, k)) {
+            fail("proof_nonce_repeated", &[("t2", hex(&t2)), ("what", format!("proof #{} of {} thread {} repeats the nonce commitment of proof #{} of thread {}", k, if named { "same-named" } else { "unnamed" }, ti, kj, tj))]);
+          }
+          if !commitments.insert(t2) {
+            fail("proof_nonce_repeated", &[("what", "a proof made on a worker thread repeats an earlier nonce commitment".into())]);
+          }
+        }
+      }
+      case(true);
+      stat("c13.proofs_on_worker_threads");
     }
   }
   stat_n("c13.commitments", commitments.len() as u64);
